@@ -508,6 +508,17 @@ func c19run(w *report.W) {
 					venv[kk] = v
 				}
 				c19guard(w, "signed step ["+doc.Descr+"]", &cs, []c19op{{"Verify", true, func() string { return fmt.Sprint(sigVerifyStep(k, cs, "repo", venv)) }}})
+				// the same record with its field list in reverse order (the list's order is not part of the payload):
+				// verification observes the record and the env map, it does not tidy them up
+				sf := cs.Signature.SignedFields
+				for i, j := 0, len(sf)-1; i < j; i, j = i+1, j-1 {
+					sf[i], sf[j] = sf[j], sf[i]
+				}
+				holder := struct {
+					Step *pipeline.CommandStep
+					Env  map[string]string
+				}{cs, venv}
+				c19guard(w, "signed step, field list reversed ["+doc.Descr+"]", &holder, []c19op{{"Verify", true, func() string { return fmt.Sprint(sigVerifyStep(k, cs, "repo", venv)) }}})
 			}
 		}
 		return !w.Expired()
